@@ -23,7 +23,7 @@ CHECKS = {
             "instrument": ["balloon/balloon.go", "balloon/hyper/tree.go", "balloon/hyper/batch_cache.go", "consensus/cluster.go@sync"], "quick": {"budget_s": 600}, "thorough": {"budget_s": 3000},
             "extra": [{"run": "TestC10Race", "race": True, "gomaxprocs": 8}]},
     "C17": {"pkg": "verifx/c17", "run": "TestC17", "harness": EXPORTS2, "level": "model_checking", "shards": 16, "gomaxprocs": 2,
-            "instrument": ["server/sender.go", "gossip/bus.go"], "quick": {"budget_s": 400}, "thorough": {"budget_s": 3000},
+            "instrument": ["server/sender.go", "gossip/bus.go", "consensus/fsm.go"], "quick": {"budget_s": 400}, "thorough": {"budget_s": 3000},
             "extra": [{"run": "TestC17Race", "race": True, "gomaxprocs": 8}]},
     "C18": {"pkg": "verifx/c18", "run": "TestC18", "harness": EXPORTS + ["gossip"], "level": "model_checking", "shards": 13, "gomaxprocs": 2,
             "instrument": ["gossip/bus.go", "gossip/processor.go", "gossip/topology.go@sync"], "quick": {"budget_s": 400}, "thorough": {"budget_s": 3000},
